@@ -447,6 +447,12 @@ class Engine:
                 if isinstance(ft, (TList, TDict, TObj)): self.note_rebind(st, obj.root, obj.path + (tgt.attr,), v)
                 self.write_path(st, obj.root, obj.path + (tgt.attr,), newval); self.escape_into(st, v, obj, tgt.attr); return
             raise Unsupported('attribute assignment ' + ast.unparse(tgt))
+        if isinstance(tgt, ast.Subscript) and isinstance(tgt.value, ast.Name) and getattr(self, 'is_opq', None) and tgt.value.id in st.env and self.is_opq(st.env[tgt.value.id]):
+            # column[mask] = v on a library value held in a local: functional update of that NAME (lib_setitem(old, key, v)).  ASSUMED: no other name of this
+            # function denotes the same library object (aliases are not updated); what the caller sees of the mutation is not modelled.
+            from .exprs import OPQ
+            old = st.env[tgt.value.id]; k = self.expr(tgt.slice, st); v = self.expr(value, st)
+            st.env[tgt.value.id] = self.opq(st, 'setitem', [old] + [a if self.is_opq(a) else PV(OPQ, self.coerce(st, a, OPQ)) for a in (k, v)]); return
         if isinstance(tgt, ast.Subscript):
             base = self.as_list(self.expr(tgt.value, st)) if not isinstance(self.expr_type_peek(tgt.value, st), TDict) else self.expr(tgt.value, st)
             if isinstance(base, PRef) and isinstance(base.t, TList):
